@@ -10,9 +10,14 @@
    [ilegacy] = the code before the two repairs this property led to (a4fdc5e: list / info merge what
    the calc_dep tasks saved; 33e694f: info reports an ignored task as ignored).  help / dumpdb /
    tabcompletion are tied by the correspondence check only (harness/c20.py): no transition in the model.
+   clean --dry-run: Model/Clean.v's command (C14; actions abstracted to their `takes dryrun` flag) and,
+   over clean LISTS mixing clean_targets / python callables with and without `dryrun` / shell commands
+   with their effect on files, [cclean_cmd] of Model/Introspect.v (C20_clean_action_invoked_iff ...
+   C20_clean_cmd_cleaned_is_C14).
 
    Result: partial.  Proved: the frame (DB untouched up to the documented checker-change
-   invalidation, no other effect); `list --status` = the decision of `run` for every task (calc_dep
+   invalidation, no other effect; clean --dry-run: per action of an arbitrary clean list, invoked iff it
+   is a python-action taking `dryrun`, independently of its neighbours, no DB record and no file changed); `list --status` = the decision of `run` for every task (calc_dep
    included: both merge the values saved by the calc_dep tasks); `info`'s status line = that decision
    for ignored tasks, for up-to-date, and in every case when all file dependencies exist; `info`'s
    reasons are exactly the true ones and are empty iff the verdict is up-to-date.
@@ -85,6 +90,70 @@ Theorem C20_clean_dryrun_frame : forall pat (fnmatch : name -> pat -> bool) tb o
   forall e, In e (Clean.w_ev w') -> In e (Clean.w_ev w) \/ harmless e.
 Proof. exact T_clean_dryrun_frame. Qed.
 Print Assumptions C20_clean_dryrun_frame.
+
+(* ---- clean over clean LISTS (Model/Introspect.v, last part): a task's `clean` is a list mixing
+   clean_targets, python callables with / without a `dryrun` parameter and shell commands, in any
+   order; actions written by the user carry what they do to files when really executed. ---- *)
+
+(* action i of the list is invoked iff the run is not a dry-run or the action ITSELF is a python-action
+   taking `dryrun`; it receives the flag iff it takes it.  Nothing about the other actions of the list
+   (before or after it) enters the condition. *)
+Theorem C20_clean_action_invoked_iff : forall (t : name) (tg : list file) (dry : bool) (acts : list cact) (w : cworld)
+    (t' : name) (i : nat) (fl : option bool),
+  In (VExec t' i fl) (c_ev (cclean_actions t tg dry 0 acts w)) <->
+  In (VExec t' i fl) (c_ev w) \/
+  (t' = t /\ exists a, nth_error acts i = Some a /\ (dry = false \/ takes_dryrun a = true) /\
+                       fl = if takes_dryrun a then Some dry else None).
+Proof. exact T_clean_action_invoked_iff. Qed.
+Print Assumptions C20_clean_action_invoked_iff.
+
+(* on a dry-run: exactly the actions taking `dryrun`, each handed dryrun=True *)
+Theorem C20_clean_dryrun_invoked_iff : forall (t : name) (tg : list file) (acts : list cact) (fs : cfs) (d : db) (i : nat) (fl : option bool),
+  In (VExec t i fl) (c_ev (cclean_actions t tg true 0 acts {| c_fs := fs; c_db := d; c_ev := [] |})) <->
+  exists a, nth_error acts i = Some a /\ takes_dryrun a = true /\ fl = Some true.
+Proof. exact T_clean_dryrun_invoked_iff. Qed.
+Print Assumptions C20_clean_dryrun_invoked_iff.
+
+(* what would be executed is printed: every action of the list is announced, executed or not *)
+Theorem C20_clean_announces_all : forall (t : name) (tg : list file) (dry : bool) (acts : list cact) (w : cworld) (i : nat),
+  (i < length acts)%nat -> In (VAnnounce t i) (c_ev (cclean_actions t tg dry 0 acts w)).
+Proof. exact T_clean_announces_all. Qed.
+Print Assumptions C20_clean_announces_all.
+
+(* frame of one ARBITRARY clean list on a dry-run: the DB is untouched, only actions taking `dryrun`
+   are invoked (with True), and no file is created or removed provided the user's dryrun-aware callables
+   honour the flag they are given (clean_targets does, by its model) *)
+Theorem C20_clean_list_dryrun_frame : forall (t : name) (tg : list file) (acts : list cact) (w : cworld),
+  let w' := cclean_actions t tg true 0 acts w in
+  c_db w' = c_db w /\
+  ((forall a, In a acts -> honours a) -> c_fs w' = c_fs w) /\
+  (forall t' i fl, In (VExec t' i fl) (c_ev w') -> In (VExec t' i fl) (c_ev w) \/
+     (t' = t /\ fl = Some true /\ exists a, nth_error acts i = Some a /\ takes_dryrun a = true)).
+Proof. exact T_clean_list_dryrun_frame. Qed.
+Print Assumptions C20_clean_list_dryrun_frame.
+
+(* the command `clean --dry-run` with any of --clean-dep / --clean-all / --forget / positional arguments,
+   on any table of tasks with arbitrary clean lists (or `clean: True`): every DB record is as before
+   (--forget included); every event added is harmless ([dry_ok]: an announcement, a message, Task.clean
+   entered with dryrun=True, or the invocation with dryrun=True of an action that takes `dryrun` and
+   belongs to the clean list of the task it is reported for); the set of existing files is as before when
+   the dryrun-aware callables honour the flag *)
+Theorem C20_clean_cmd_dryrun_frame : forall (pat : Type) (fnmatch : name -> pat -> bool) (tb : ctable) (o : Clean.opts pat) (w : cworld) l w',
+  cclean_cmd pat fnmatch tb o w = Clean.Ok (l, w') -> Clean.o_dryrun o = true ->
+  (forall x, c_db w' x = c_db w x) /\
+  (forall e, In e (c_ev w') -> In e (c_ev w) \/ dry_ok tb e) /\
+  ((forall t, In t tb -> honest t) -> c_fs w' = c_fs w).
+Proof. exact T_cclean_dryrun_frame. Qed.
+Print Assumptions C20_clean_cmd_dryrun_frame.
+
+(* the tasks cleaned, in order, are those of Model/Clean.v's command on the same table (erasing the
+   actions to their `takes dryrun` flags): the theorems of C14 about that list apply *)
+Theorem C20_clean_cmd_cleaned_is_C14 : forall (pat : Type) (fnmatch : name -> pat -> bool) (tb : ctable) (o : Clean.opts pat) (w : cworld) l w',
+  cclean_cmd pat fnmatch tb o w = Clean.Ok (l, w') ->
+  exists cw', Clean.clean_execute pat fnmatch (map to_clean_task tb) o
+                {| Clean.w_fs := []; Clean.w_db := []; Clean.w_ev := [] |} = Clean.Ok (l, cw').
+Proof. exact T_cclean_cleaned_is_C14. Qed.
+Print Assumptions C20_clean_cmd_cleaned_is_C14.
 
 (* ------------------------------------------------------------------ list --status agrees with run *)
 (* the task lines `list --status` prints are [status_letters]; every letter is the decision `run`
@@ -344,3 +413,43 @@ Proof.
   eexists. eexists. split; [vm_compute; reflexivity|]. split; [simpl; auto|].
   simpl. intros [H|[H|[H|[H|H]]]]; try discriminate; auto.
 Qed.
+
+(* clean lists: task 1 (targets 5, 6; depends on task 2) has the documented idiom
+   [clean_targets; shell `rm 10`; python callable removing 11 (no dryrun parameter); python callable with
+   `dryrun` creating 12 unless dry]; task 2 has `clean: True` (target 7).  `clean -n -a --forget`: both
+   tasks are cleaned, actions 0 and 3 of task 1 are invoked with dryrun=True, 1 and 2 are announced only;
+   files and DB as before.  The same command without -n removes 5 6 7 10 11, creates 12, forgets both. *)
+Definition cl_tab : ctable :=
+  [{| ct_name := 1%N; ct_task_dep := [2%N]; ct_setup := []; ct_subtask_of := None;
+      ct_clean := Some [CTargets; CCmd [FRemove 10%N]; CPyPlain [FRemove 11%N]; CPyDry (fun d => if d then [] else [FCreate 12%N])];
+      ct_targets := [5%N; 6%N] |};
+   {| ct_name := 2%N; ct_task_dep := []; ct_setup := []; ct_subtask_of := None; ct_clean := None; ct_targets := [7%N] |}].
+Definition cl_opts (dry : bool) : Clean.opts unit :=
+  {| Clean.o_dryrun := dry; Clean.o_cleandep := false; Clean.o_cleanall := true; Clean.o_forget := true;
+     Clean.o_pos := []; Clean.o_sel := None |}.
+Definition cl_w0 : cworld :=
+  {| c_fs := [5; 6; 7; 10; 11]%N; c_db := fun n => if N.leb n 2 then Some empty_rec else None; c_ev := [] |}.
+Example C20_clean_lists_nonvacuous :
+  (forall t, In t cl_tab -> honest t) /\
+  (exists w', cclean_cmd unit (fun _ _ => false) cl_tab (cl_opts true) cl_w0 = Clean.Ok ([1; 2]%N, w') /\
+     c_fs w' = [5; 6; 7; 10; 11]%N /\ c_db w' 1%N = Some empty_rec /\
+     c_ev w' = [VClean 1%N true; VAnnounce 1%N 0%nat; VExec 1%N 0%nat (Some true); VMsg 1%N 6%N; VMsg 1%N 5%N; VAnnounce 1%N 1%nat; VAnnounce 1%N 2%nat;
+                VAnnounce 1%N 3%nat; VExec 1%N 3%nat (Some true); VClean 2%N true; VMsg 2%N 7%N]) /\
+  (exists w', cclean_cmd unit (fun _ _ => false) cl_tab (cl_opts false) cl_w0 = Clean.Ok ([1; 2]%N, w') /\
+     c_fs w' = [12%N] /\ c_db w' 1%N = None /\ c_db w' 2%N = None /\
+     In (VExec 1%N 1%nat None) (c_ev w') /\ In (VExec 1%N 2%nat None) (c_ev w')).
+Proof.
+  split.
+  - intros t [<-|[<-|[]]] acts a E Ha; simpl in E; [|discriminate]. inversion E; subst.
+    destruct Ha as [<-|[<-|[<-|[<-|[]]]]]; simpl; auto.
+  - split; eexists; (split; [vm_compute; reflexivity|]); simpl; repeat split; auto 15.
+Qed.
+
+(* the hypothesis on the user's callables is needed, and is the only way a dry-run reaches the files: a
+   callable that takes `dryrun` and ignores it is invoked (with True) and removes its file *)
+Example C20_clean_honours_needed :
+  let tb := [{| ct_name := 1%N; ct_task_dep := []; ct_setup := []; ct_subtask_of := None;
+                ct_clean := Some [CPyDry (fun _ => [FRemove 10%N])]; ct_targets := [] |}] in
+  exists w', cclean_cmd unit (fun _ _ => false) tb (cl_opts true) cl_w0 = Clean.Ok ([1%N], w') /\
+             c_fs w' = [5; 6; 7; 11]%N /\ c_ev w' = [VClean 1%N true; VAnnounce 1%N 0%nat; VExec 1%N 0%nat (Some true)].
+Proof. cbv zeta. eexists. split; [vm_compute; reflexivity|]. split; reflexivity. Qed.
